@@ -123,6 +123,12 @@ class _Rename(ast.NodeTransformer):
             n.id = self.mapping[n.id]
         return n
 
+    def visit_alias(self, n):
+        cur = n.asname or n.name.split(".")[0]
+        if cur in self.mapping and (n.asname or "." not in n.name):
+            n.asname = self.mapping[cur]
+        return n
+
     def visit_ExceptHandler(self, n):
         if n.name in self.mapping:
             n.name = self.mapping[n.name]
@@ -351,3 +357,47 @@ def split_tuple_assigns(tree):
                 new.append(st)
             setattr(node, field, new)
     return n
+
+
+# ---------------------------------------------------------------------------------------------------------------------
+# polarity of two-way branches
+# ---------------------------------------------------------------------------------------------------------------------
+class _Polarity(ast.NodeTransformer):
+    """`if not c: A else: B` -> `if c: B else: A` (plain else only, elif chains keep their order) and `a if not c else b` -> `b if c else a`:
+    the same program, with one polarity for the rules to read"""
+    def __init__(self):
+        self.n = 0
+
+    @staticmethod
+    def _dd(test):
+        """`not not c` in a truth-value context is `c`"""
+        while isinstance(test, ast.UnaryOp) and isinstance(test.op, ast.Not) and isinstance(test.operand, ast.UnaryOp) and isinstance(test.operand.op, ast.Not):
+            test = test.operand.operand
+        return test
+
+    def visit_While(self, node):
+        self.generic_visit(node)
+        node.test = self._dd(node.test)
+        return node
+
+    def visit_If(self, node):
+        self.generic_visit(node)
+        node.test = self._dd(node.test)
+        while node.orelse and not (len(node.orelse) == 1 and isinstance(node.orelse[0], ast.If)) and isinstance(node.test, ast.UnaryOp) and isinstance(node.test.op, ast.Not):
+            node.test, node.body, node.orelse = node.test.operand, node.orelse, node.body
+            self.n += 1
+        return node
+
+    def visit_IfExp(self, node):
+        self.generic_visit(node)
+        node.test = self._dd(node.test)
+        while isinstance(node.test, ast.UnaryOp) and isinstance(node.test.op, ast.Not):
+            node.test, node.body, node.orelse = node.test.operand, node.orelse, node.body
+            self.n += 1
+        return node
+
+
+def normalise_polarity(tree):
+    p = _Polarity()
+    p.visit(tree)
+    return p.n
